@@ -4,6 +4,7 @@ package meta_leaseset
 import (
 	"encoding/binary"
 	"sort"
+	"strings"
 	"time"
 
 	common "github.com/go-i2p/common/data"
@@ -204,6 +205,7 @@ func parseOfflineSignature(mls *MetaLeaseSet, data []byte) ([]byte, error) {
 // Returns remaining data after parsing or error if parsing fails.
 func parseOptionsMapping(mls *MetaLeaseSet, data []byte) ([]byte, error) {
 	mapping, rem, errs := common.ReadMapping(data)
+	errs = fatalMappingErrors(errs)
 	if len(errs) > 0 {
 		err := oops.
 			Code("options_parse_failed").
@@ -342,9 +344,24 @@ func parseEntryFixedFields(entry *MetaLeaseSetEntry, data []byte) []byte {
 	return data
 }
 
+// fatalMappingErrors drops the warning that bytes follow the mapping: a mapping embedded
+// in a MetaLeaseSet is always followed by further fields, so a non-empty mapping always
+// carries that warning (LeaseSet2 filters it the same way).
+func fatalMappingErrors(errs []error) []error {
+	var fatal []error
+	for _, e := range errs {
+		if strings.Contains(e.Error(), "data exists beyond length of mapping") {
+			continue
+		}
+		fatal = append(fatal, e)
+	}
+	return fatal
+}
+
 // parseEntryProperties reads the properties mapping for a MetaLeaseSet entry.
 func parseEntryProperties(entry *MetaLeaseSetEntry, entryIndex int, data []byte) ([]byte, error) {
 	properties, rem, errs := common.ReadMapping(data)
+	errs = fatalMappingErrors(errs)
 	if len(errs) > 0 {
 		err := oops.
 			Code("entry_properties_parse_failed").
